@@ -185,7 +185,32 @@ def gen_config(rng, opts=None):
     route = {'bindings': bindings, 'mws': [dict((kk, vv) for kk, vv in m.items() if kk != 'where') for m in mws if m['where'] == nlev],
              'resources': route_res, 'endpoint': endpoint, 'render': render,
              'methods': ['GET'] if rng.chance(0.5) else None}
-    return {'levels': levels, 'route': route, 'beh': {}}
+    cfg = {'levels': levels, 'route': route, 'beh': {}}
+    used = set(NAMES) & (set(bindings) | set(route_res) | set(x for l in level_res for x in l) |
+                         set(n for m in mws for a in ('provides', 'endpoint_provides', 'render_provides') for n in m[a]))
+    mentioned = set(p[0] for f in [endpoint, render] + [m.get(ph) for m in mws for ph in ('request', 'endpoint', 'render')] if f
+                    for p in f['params'])
+    spare = [n for n in NAMES + ['e', 'f'] if n not in used]
+    if nlev > 1 and opts.get('prefix_bindings', True) and rng.chance(0.4):
+        # URL bindings contributed by the mount prefix of an embedding (visible to the outer bindings only)
+        k = rng.randrange(nlev - 1)
+        pick = [n for n in spare if n not in mentioned or rng.chance(0.5)]
+        if pick:
+            levels[k]['prefix_bindings'] = [rng.pick(pick)]
+            spare = [n for n in spare if n not in levels[k]['prefix_bindings']]
+    if opts.get('decoys', False) and rng.chance(0.6):
+        # names the real route may receive from route-level sources (or defaults), never from a level:
+        # a decoy route binding such a name from the URL must not leak it
+        level_names = set(x for l in level_res for x in l) | set(n for m in mws if m.get('_where', 0) is not None for n in ())
+        lv_prov = set(n for l in levels for m in l['mws'] for a in ('provides', 'endpoint_provides', 'render_provides') for n in m[a])
+        pbs = set(b for l in levels for b in l.get('prefix_bindings') or [])
+        cands = [n for n in NAMES if n not in bindings and n not in level_names and n not in lv_prov and n not in pbs]
+        rng.shuffle(cands)
+        # a decoy that declines with a non-breaking error is executed with the level middlewares, whose spies
+        # would log it: only used when no level has middlewares; otherwise the decoy is skipped by method
+        kinds = ['method', 'nb'] if not any(l['mws'] for l in levels) else ['method']
+        route['decoys'] = [{'name': n, 'kind': rng.pick(kinds)} for n in cands[:rng.randint(1, 2)]]
+    return cfg
 
 
 # ---- the exhaustive small core ---------------------------------------------------------------
